@@ -1,0 +1,69 @@
+//go:build verif
+
+package postgresql
+
+// Add-only hooks for the verification harness (/verif, check C14): they run the client-side and
+// database-side packet handlers of PgProxy synchronously on one packet, so that a malformed message
+// reaches GetBindData / GetParseData / GetExecuteData / GetSimpleQuery / GetRowDescriptionData /
+// GetParameterDescriptionData exactly the way ProxyClientConnection / ProxyDatabaseConnection call them.
+// No behaviour is changed; compiled only with -tags verif.
+
+import (
+	"context"
+
+	"github.com/cossacklabs/acra/acra-censor"
+	"github.com/cossacklabs/acra/decryptor/base"
+	"github.com/cossacklabs/acra/encryptor/postgresql"
+	"github.com/cossacklabs/acra/sqlparser"
+	"github.com/sirupsen/logrus"
+)
+
+// VerifS14MaxRows returns the row limit of a parsed Execute packet.
+func (p *ExecutePacket) VerifS14MaxRows() uint32 {
+	return p.maxRows
+}
+
+// VerifS14Proxy is a PgProxy without connections: protocol state, statement registry, an empty
+// query-observer list, the given censor and parser.
+type VerifS14Proxy struct {
+	proxy  *PgProxy
+	ctx    context.Context
+	logger *logrus.Entry
+}
+
+// NewVerifS14Proxy builds the proxy state for one session.
+func NewVerifS14Proxy(session base.ClientSession, parser *sqlparser.Parser, censor acracensor.AcraCensorInterface) (*VerifS14Proxy, error) {
+	ctx := base.SetClientSessionToContext(context.Background(), session)
+	observers, err := postgresql.NewArrayQueryObservableManager(ctx)
+	if err != nil {
+		return nil, err
+	}
+	clientIDObservers, err := base.NewArrayClientIDObservableManager(ctx)
+	if err != nil {
+		return nil, err
+	}
+	registry := NewPreparedStatementRegistry()
+	proxy := &PgProxy{
+		session:                 session,
+		ctx:                     ctx,
+		queryObserverManager:    observers,
+		censor:                  censor,
+		decryptionObserver:      base.NewColumnDecryptionObserver(),
+		protocolState:           NewPgProtocolState(registry),
+		clientIDObserverManager: clientIDObservers,
+		parser:                  parser,
+		registry:                registry,
+	}
+	return &VerifS14Proxy{proxy: proxy, ctx: ctx, logger: logrus.NewEntry(logrus.StandardLogger())}, nil
+}
+
+// HandleClientPacket runs handleClientPacket on the packet read last by the handler.
+func (p *VerifS14Proxy) HandleClientPacket(packet *PacketHandler) (bool, error) {
+	return p.proxy.handleClientPacket(p.ctx, packet, p.logger)
+}
+
+// HandleDatabasePacket runs handleDatabasePacket on the packet read last by the handler.
+// (DataRow packets need the schema store: they are driven through VerifParseColumns instead.)
+func (p *VerifS14Proxy) HandleDatabasePacket(packet *PacketHandler) error {
+	return p.proxy.handleDatabasePacket(p.ctx, packet, p.logger)
+}
